@@ -1,6 +1,7 @@
 package main
 
 import (
+	"math/big"
 	"database/sql/driver"
 	"math"
 	"strconv"
@@ -152,14 +153,35 @@ func (x *Exec) sqlOps(st *Step, ev Ev) {
 		mdb.ncall = 0
 		rsEv := [][]Ev{}
 		fl := [][]Cell{}
+		fr := [][]Cell{}
+		seenF := map[uint64]bool{}
+		prec := 0
+		if st.Sql != nil {
+			prec = st.Sql.Precision
+		}
+		addRound := func(f float64) {
+			if prec <= 0 || seenF[math.Float64bits(f)] {
+				return
+			}
+			seenF[math.Float64bits(f)] = true
+			row := []Cell{encFloat(f)}
+			for _, r := range roundRef(f, prec) {
+				row = append(row, encFloat(r))
+			}
+			fr = append(fr, row)
+		}
 		seen := map[string]bool{}
 		for _, r := range rows {
 			re := []Ev{}
 			for _, v := range r {
 				re = append(re, sqlVal(v))
+				if f, ok := v.(float64); ok {
+					addRound(f)
+				}
 				if s, ok := v.(string); ok && !seen[s] { // reference for the StringToFloat coercion
 					seen[s] = true
 					if f, err := strconv.ParseFloat(s, 64); err == nil {
+						addRound(f)
 						if math.IsNaN(f) {
 							fl = append(fl, []Cell{encStr(s), {5}})
 						} else {
@@ -172,10 +194,67 @@ func (x *Exec) sqlOps(st *Step, ev Ev) {
 			}
 			rsEv = append(rsEv, re)
 		}
-		ev["a"] = Ev{"conf": st.Sql.tla(), "names": bsList(names), "rows": rsEv, "rt": rt, "fparse": fl, "query": toBS(readQuery)}
+		ev["a"] = Ev{"conf": st.Sql.tla(), "names": bsList(names), "rows": rsEv, "rt": rt, "fparse": fl, "fround": fr, "query": toBS(readQuery)}
 		qf := qframe.ReadSQL(tx, st.Sql.opts(readQuery)...)
 		ev["fired"] = b2i(mdb.fired)
 		ev["dcalls"] = callsTla(mdb.calls)
 		x.result(ev, qf)
 	}
+}
+
+// roundRef: the admissible results of rounding x to p decimals (Sql.tla, Precision), computed exactly:
+// k = x*10^p rounded half away from zero, result = the binary64 nearest to k/10^p. Where x*10^p is within
+// 1e-6 of a tie both neighbours of the tie are admissible; beyond 2^31 the neighbouring floats of the
+// result are too (the documentation does not fix the last bit there); a zero result may carry either sign.
+func roundRef(x float64, p int) []float64 {
+	if math.IsNaN(x) || math.IsInf(x, 0) {
+		return []float64{x}
+	}
+	scale := new(big.Rat).SetInt(new(big.Int).Exp(big.NewInt(10), big.NewInt(int64(p)), nil))
+	xs := new(big.Rat).Mul(new(big.Rat).SetFloat64(x), scale)
+	// floor and fraction
+	fl := new(big.Int).Div(xs.Num(), xs.Denom()) // Euclidean division: floor for a positive denominator
+	frac := new(big.Rat).Sub(xs, new(big.Rat).SetInt(fl))
+	half := big.NewRat(1, 2)
+	eps := big.NewRat(1, 1000000)
+	up := new(big.Int).Add(fl, big.NewInt(1))
+	toF := func(k *big.Int) float64 {
+		f, _ := new(big.Rat).Quo(new(big.Rat).SetInt(k), scale).Float64()
+		return f
+	}
+	d := new(big.Rat).Sub(frac, half)
+	tie := new(big.Rat).Abs(d).Cmp(eps) <= 0
+	var ks []*big.Int
+	switch {
+	case tie:
+		ks = []*big.Int{fl, up}
+	case d.Sign() > 0:
+		ks = []*big.Int{up}
+	default:
+		ks = []*big.Int{fl}
+	}
+	big31 := new(big.Rat).SetInt64(1 << 31)
+	wide := new(big.Rat).Abs(xs).Cmp(big31) >= 0
+	out := []float64{}
+	add := func(f float64) {
+		for _, o := range out {
+			if math.Float64bits(o) == math.Float64bits(f) {
+				return
+			}
+		}
+		out = append(out, f)
+	}
+	for _, k := range ks {
+		f := toF(k)
+		add(f)
+		if f == 0 {
+			add(math.Copysign(0, -1))
+			add(0)
+		}
+		if wide {
+			add(math.Nextafter(f, math.Inf(1)))
+			add(math.Nextafter(f, math.Inf(-1)))
+		}
+	}
+	return out
 }
